@@ -220,6 +220,9 @@ func (e *Engine) Attest(msg []byte, vstyle int) []byte {
 func (e *Engine) pickLinked(r *rand.Rand, needMessenger bool) (uint32, []byte, bool) {
 	var ks []pairKey
 	for k := range e.M.Pairs {
+		if len(k.Token) != 32 {
+			continue // a burn message has room for 32-byte tokens only
+		}
 		if needMessenger {
 			if _, ok := e.M.Messengers[k.Domain]; !ok {
 				continue
